@@ -19,6 +19,7 @@ pub struct Which {
     pub export: bool,
     pub serde: bool,
     pub index: bool,
+    pub lifecycle: bool,
     pub tmpdir: String,
     pub thorough: bool,
 }
@@ -47,6 +48,9 @@ fn table_or_panic<K: Kmer>(sink: &Sink, inp: &GInput) -> Option<Vec<Row>> {
 }
 
 pub fn run_input<K: Kmer + Send + Sync + serde::Serialize + serde::de::DeserializeOwned>(sink: &Sink, r: &mut Rng, inp: &GInput, w: &Which) {
+    if w.lifecycle {
+        lifecycle::<K>(sink, r, inp);
+    }
     if w.pipeline && inp.mode == Mode::Sum {
         ev_pipeline::<K>(sink, r, inp);
     }
@@ -183,6 +187,7 @@ fn which_from(args: &Args) -> Which {
         export: has("export"),
         serde: has("serde"),
         index: has("index"),
+        lifecycle: ev.iter().any(|x| x == "lifecycle"),
         tmpdir: if tmpdir.is_empty() { ".".into() } else { tmpdir },
         thorough: args.thorough(),
     }
